@@ -484,3 +484,116 @@ def proxy_failure_closes_rule(ctx, rule):
                       'skips CONNECT and start_tls and is written to the proxy as it is - an https request with its credentials in clear text', ap.loc(h))
     if n == 0:
         raise AnalysisError('acquire_proxy: no failure handler that gives the connection back (C12-D8 c)')
+
+
+def sql_boolop_lint(ctx, rule, modules=('wpull.database.sqlmodel', 'wpull.database.sqltable')):
+    """Python's `and` / `or` / `not` on SQLAlchemy column comparisons: `bool(column == value)` is False for distinct operands, so
+    `A == a and B == b` evaluates to its first operand and the second condition silently disappears from the query (and_() / or_() /
+    not_() build the SQL).  Flagged wherever an operand of a BoolOp is a comparison that mentions a model column."""
+    import ast
+    from ..index import norm_text
+    repo, ck = ctx.repo, ctx.check
+    MODELS = ('QueuedURL', 'URLString', 'Hostname', 'QueuedFile', 'WARCVisit')
+    n = 0
+    for mn in modules:
+        m = repo.module(mn)
+        for f in [x for x in repo.funcs.values() if x.module is m]:
+            for b in ast.walk(f.node):
+                ops = b.values if isinstance(b, ast.BoolOp) else ([b.operand] if isinstance(b, ast.UnaryOp) and isinstance(b.op, ast.Not) else [])
+                for o in ops:
+                    if isinstance(o, ast.Compare) and any(isinstance(x, ast.Attribute) and isinstance(x.value, ast.Name) and x.value.id in MODELS
+                                                          for x in ast.walk(o)):
+                        n += 1
+                        ck.bad(rule, f.qual, 'SQL condition `%s` joined with Python and/or/not' % norm_text(b)[:90],
+                               'a column comparison is combined with Python\'s boolean operators: the expression collapses to one operand '
+                               'before SQLAlchemy sees it and the other condition is not part of the query', f.loc(b))
+    if n == 0:
+        ck.ok(rule, modules[0], 'no column comparison is combined with Python and/or/not')
+
+
+def contextmanager_swallow_lint(ctx, rule, quals):
+    """A generator-based context manager whose `yield` sits inside a `try` with a handler that does not re-raise swallows the
+    exceptions of the with-body (contextlib throws them in at the yield).  For the helpers used while a record is copied into the
+    archive this turns an I/O error into a silent success with a short record."""
+    import ast
+    from ..index import walk_no_nested
+    repo, ck = ctx.repo, ctx.check
+    for q in quals:
+        f = repo.func(q)
+        bad = None
+        for t in walk_no_nested(f.node):
+            if isinstance(t, ast.Try) and any(isinstance(x, (ast.Yield, ast.YieldFrom)) for b in t.body for x in ast.walk(b)):
+                for h in t.handlers:
+                    if not (h.body and isinstance(h.body[-1], ast.Raise)):
+                        bad = h
+        ck.expect(bad is None, rule, f.qual, 'exceptions of the with-body pass through the context manager',
+                  'the `yield` of this context manager is inside a try whose handler does not re-raise: an error raised in the with-body '
+                  '(an I/O error while the record block is read) is swallowed and the caller carries on as if the body had completed',
+                  f.loc(bad) if bad is not None else f.loc())
+
+
+def fresh_record_per_write_lint(ctx, rule):
+    """Every WARC record written inside a loop is created inside that loop: set_common_fields assigns the record ID, so a record
+    object hoisted out of the loop gives every record of the loop the same WARC-Record-ID."""
+    import ast
+    from .. import util as U
+    from ..index import norm_text, walk_no_nested
+    repo, ck = ctx.repo, ctx.check
+    n = 0
+    for f in repo.funcs.values():
+        if not f.module.name.startswith('wpull.') or f.module.name.startswith('wpull.thirdparty') or f.module.name.endswith('_test'):
+            continue
+        for lp in [x for x in walk_no_nested(f.node) if isinstance(x, (ast.For, ast.While))]:
+            for c in [c for b in lp.body for c in U.calls(b) if U.attr_name(c) == 'write_record' and c.args and isinstance(c.args[0], ast.Name)]:
+                n += 1
+                nm = c.args[0].id
+                created_inside = any(isinstance(st, ast.Assign) and any(isinstance(t, ast.Name) and t.id == nm for t in st.targets)
+                                     and isinstance(st.value, ast.Call) and norm_text(st.value.func).split('.')[-1] in ('WARCRecord', '_new_record')
+                                     for b in lp.body for st in ast.walk(b))
+                ck.expect(created_inside, rule, f.qual, 'write_record(%s) in a loop: %s is created in the loop' % (nm, nm),
+                          'the record written on every iteration is one object created before the loop: all these records share one '
+                          'WARC-Record-ID (it is assigned once, by set_common_fields)', f.loc(c))
+    return n
+
+
+def record_url_stores_rule(ctx, rule):
+    """A URL record's `url` is the key of its row: every `<record>.url = V` outside the table layer stores the normal form
+    (`<URLInfo>.url`), whichever module does it (the proxy coprocessor builds records for requests it did not queue itself)."""
+    import ast
+    from ..index import norm_text, walk_no_nested
+    repo, ck = ctx.repo, ctx.check
+    n = 0
+    for f in repo.funcs.values():
+        mn = f.module.name
+        if not mn.startswith('wpull.') or mn.startswith(('wpull.thirdparty', 'wpull.database', 'wpull.testing')) or mn.endswith('_test'):
+            continue
+        for st in walk_no_nested(f.node):
+            if isinstance(st, ast.Assign) and len(st.targets) == 1 and isinstance(st.targets[0], ast.Attribute) and st.targets[0].attr == 'url' \
+                    and 'record' in norm_text(st.targets[0].value).lower():
+                n += 1
+                v = st.value
+                ok = isinstance(v, ast.Attribute) and v.attr == 'url' and ('url_info' in norm_text(v.value) or norm_text(v.value).endswith('info'))
+                # ... or the function's own URL parameter (child_url_record(url): its callers are held to the normal form by C01-D2)
+                ok = ok or (isinstance(v, ast.Name) and v.id in f.params and f.name in ('child_url_record', 'add_url', 'add_child_url'))
+                ck.expect(ok, rule, f.qual, '%s <- normal form' % norm_text(st.targets[0]),
+                          'a URL record gets `%s`, which is not the `.url` of a parsed URLInfo: its key, its parent/root role for the links found '
+                          'on it and its check-in no longer use the normal form' % norm_text(v)[:60], f.loc(st))
+    return n
+
+
+def download_recycles_rule(ctx, rule):
+    """WebSession starts a new HTTP session for every hop of a redirect chain and its __exit__ recycles only the last one: every
+    earlier hop's connection goes back to the pool because http Session.download ends with recycle().  Without it each followed
+    redirect keeps one connection checked out; after max_host_count of them the next request to that host waits for ever."""
+    import ast
+    from .. import flow as F
+    from .. import util as U
+    repo, ck = ctx.repo, ctx.check
+    dl = repo.func('wpull.protocol.http.client:Session.download')
+    cfg = ctx.cfg(dl)
+    rec = lambda n: n.kind == 'stmt' and any(U.attr_name(c) == 'recycle' and U.is_self_attr(c.func.value) is False and
+                                             ast.unparse(c.func.value) == 'self' for c in F.node_calls(n))
+    p = cfg.find_path(cfg.entry, lambda n: n is cfg.exit, edge_ok=F.normal, stop=rec)
+    ck.expect(p is None, rule, dl.qual, 'download() ends with self.recycle() on every normal path',
+              'a completed download does not give its connection back: the web session recycles only the session of the last redirect hop, '
+              'so every followed redirect leaks a connection and the host\'s pool runs dry', dl.loc())
